@@ -1,20 +1,15 @@
 from tools.driver import Unit
-def vec(name, fn, reach, what):
+ASSUMED = ["decode_packed_entry_number by its contract (an entry of the book or -1; proved in unit cb_decode_entry)",
+           "the book as the decode set-up leaves a value book: dim >= 1, used_entries*dim floats in the value table (harness-built)"]
+def vec(name, fn, reach, what, small=None, tier="quick", timeout=900):
+    d = ["H_NAME=h_" + name, "H_FN=" + fn] + (["H_SMALL=%d" % small] if small else [])
     return Unit(name, ["C02", "C01", "C11", "C18"], "lib/codebook.c", enforce=fn, replace=["decode_packed_entry_number"], loops="codebook_decode.loops",
-       harness="h_cb_vec.c", entry="h_" + name, defines=["H_NAME=h_" + name, "H_FN=" + fn], reach=reach, timeout=900,
-       assumed=["decode_packed_entry_number by its contract (an entry of the book or -1; proved in unit cb_decode_entry)",
-                "the book as the decode set-up leaves a value book: dim >= 1, used_entries*dim <= 2^24 floats in the value table (harness-built)"],
-       note=what)
-def lem(u):
-    u.name += "_lem"; u.entry += "_lem"; u.defines = [d.replace("H_NAME=h_" + u.name[:-4], "H_NAME=h_" + u.name) for d in u.defines] + ["VERIF_MUL_LEMMA"]
-    u.assumed.append("arithmetic lemma assumed with the callee contract: 0 <= e < u, d >= 1 ==> e*d + d <= u*d (all below 2^24)")
-    return u
-def small(u):
-    u.name += "_small"; u.entry += "_small"; u.defines = [d.replace("H_NAME=h_" + u.name[:-6], "H_NAME=h_" + u.name) for d in u.defines] + ["H_SMALL=1024"]
-    return u
+       harness="h_cb_vec.c", entry="h_" + name, defines=d, reach=reach, timeout=timeout, tier=tier, assumed=ASSUMED, note=what,
+       kind="B" if small else "P", bound=("value table of <= %d floats (used_entries*dim; the one nonlinear obligation entry*dim+j < used_entries*dim scales with it); n up to 2^24, all loops closed by loop contracts" % small) if small else "")
+ADD = "vector decode (residue 1): every store lands in the n floats handed in (frame), every load inside the book's value table (entry*dim+j), both loops terminate because a value book has dim >= 1; an empty book decodes nothing; never more codewords than values"
+SET = "vector decode (floor 0): as decodev_add; an empty book zero-fills exactly n floats"
 UNITS = [
-  small(vec("cb_decodev_add", "vorbis_book_decodev_add", 2, "probe")),
-  lem(vec("cb_decodev_add", "vorbis_book_decodev_add", 2, "with the multiplication lemma")),
-  vec("cb_decodev_add", "vorbis_book_decodev_add", 2, "vector decode (residue 1): every store lands in the n floats handed in (frame), every load inside the book's value table (entry*dim+j), both loops terminate because a value book has dim >= 1; an empty book decodes nothing; never more codewords than values"),
-  vec("cb_decodev_set", "vorbis_book_decodev_set", 3, "vector decode (floor 0): as decodev_add; an empty book zero-fills exactly n floats"),
+  vec("cb_decodev_add", "vorbis_book_decodev_add", 2, ADD, small=1024),
+  vec("cb_decodev_set", "vorbis_book_decodev_set", 3, SET, small=1024),
+  vec("cb_decodev_add_full", "vorbis_book_decodev_add", 2, ADD + " (value table up to the format's 2^24 floats: not finished in 15 min on MiniSat; kept for the thorough tier)", tier="thorough", timeout=3600),
 ]
